@@ -194,6 +194,11 @@ func (mi *MessageInfo) unmarshalPointerEager(b []byte, p pointer, groupTag proto
 			if f.funcs.unmarshal == nil {
 				break
 			}
+			if f.isLazy && f.presenceIndex != noPresence && presence.Present(f.presenceIndex) && p.Apply(f.offset).AtomicGetPointer().IsNil() {
+				// The field was deferred by an earlier lazy decode of this
+				// message: decode it before merging another occurrence into it.
+				mi.lazyUnmarshal(p, f.num)
+			}
 			var o unmarshalOutput
 			o, err = f.funcs.unmarshal(b, p.Apply(f.offset), wtyp, f, opts)
 			n = o.n
